@@ -317,29 +317,7 @@ public:
 	}
 	
 	~splinetable(){
-		if(ndim){
-			uint64_t ncoeffs=strides[0]*naxes[0];
-			for(uint32_t i=0; i<ndim; i++)
-				deallocate(knots[i]-order[i],nknots[i]+2*order[i]);
-			deallocate(knots,ndim);
-			deallocate(nknots,ndim);
-			deallocate(order,ndim);
-			if(extents){
-				deallocate(extents[0],2*ndim);
-				deallocate(extents,ndim);
-			}
-			if(periods)
-				deallocate(periods,ndim);
-			deallocate(coefficients,ncoeffs);
-			deallocate(naxes,ndim);
-			deallocate(strides,ndim);
-			for(uint32_t i=0; i<naux; i++){
-				deallocate(aux[i][0],strlen(&aux[i][0][0])+1);
-				deallocate(aux[i][1],strlen(&aux[i][1][0])+1);
-				deallocate(aux[i],2);
-			}
-			deallocate(aux,naux);
-		}
+		clear();
 	}
 	
 	splinetable& operator=(splinetable&& other){
@@ -823,6 +801,62 @@ private:
 		typedef std::allocator_traits<other_alloc_t> other_alloc_traits;
 		other_alloc_t other_alloc(allocator);
 		other_alloc_traits::deallocate(other_alloc,buf,n);
+	}
+	
+	///Release all storage owned by this object and return it to the empty state.
+	///This may be used on a partially constructed table (e.g. after a failure
+	///part way through reading or fitting), provided that every pointer which
+	///has not yet been set is null, and that the sizes which describe an array
+	///(ndim, naux, order and nknots for the knot vectors, naxes for the
+	///coefficients) were set before the array itself was.
+	void clear(){
+		if(knots){
+			for(uint32_t i=0; i<ndim; i++){
+				if(knots[i])
+					deallocate(knots[i]-order[i],nknots[i]+2*order[i]);
+			}
+			deallocate(knots,ndim);
+		}
+		if(extents){
+			if(extents[0])
+				deallocate(extents[0],2*ndim);
+			deallocate(extents,ndim);
+		}
+		if(periods)
+			deallocate(periods,ndim);
+		if(coefficients)
+			deallocate(coefficients,get_ncoeffs());
+		if(nknots)
+			deallocate(nknots,ndim);
+		if(order)
+			deallocate(order,ndim);
+		if(naxes)
+			deallocate(naxes,ndim);
+		if(strides)
+			deallocate(strides,ndim);
+		if(aux){
+			for(uint32_t i=0; i<naux; i++){
+				if(!aux[i])
+					continue;
+				if(aux[i][0])
+					deallocate(aux[i][0],strlen(&aux[i][0][0])+1);
+				if(aux[i][1])
+					deallocate(aux[i][1],strlen(&aux[i][1][0])+1);
+				deallocate(aux[i],2);
+			}
+			deallocate(aux,naux);
+		}
+		ndim=0;
+		order=NULL;
+		knots=NULL;
+		nknots=NULL;
+		extents=NULL;
+		periods=NULL;
+		coefficients=NULL;
+		naxes=NULL;
+		strides=NULL;
+		naux=0;
+		aux=NULL;
 	}
 	
 	///Read from a file
